@@ -5,7 +5,9 @@ mod ag;
 mod refs;
 mod lrx;
 mod c01;
+mod c02;
 mod c03;
+mod c04;
 mod c16;
 mod c17;
 mod c19;
@@ -13,7 +15,7 @@ mod c19;
 use frame::{Check, Tier};
 
 fn registry() -> Vec<Box<dyn Check>> {
-    vec![Box::new(c01::C01), Box::new(c03::C03), Box::new(c16::C16), Box::new(c17::C17), Box::new(c19::C19)]
+    vec![Box::new(c01::C01), Box::new(c02::C02), Box::new(c03::C03), Box::new(c04::C04), Box::new(c16::C16), Box::new(c17::C17), Box::new(c19::C19)]
 }
 
 fn find(id: &str) -> Box<dyn Check> {
@@ -56,6 +58,19 @@ fn main() {
             let seed = v["seed"].as_u64().unwrap_or(1);
             let idx = v["case"].as_u64().unwrap_or(0);
             std::process::exit(frame::driver_main(c.as_ref(), tier, seed, Some(idx)));
+        }
+        "gcsearch" => {
+            let mut rng = rng::Rng::new(args[2].parse().unwrap());
+            let mut found = 0;
+            let min_d: u64 = args.get(3).and_then(|s| s.parse().ok()).unwrap_or(1);
+            let n: usize = args.get(4).and_then(|s| s.parse().ok()).unwrap_or(200000);
+            for _ in 0..n {
+                if let Some((g, d)) = ag::search_gc_grammar(&mut rng, 1, min_d, true) {
+                    println!("dropped={d}\n{}", g.normal_form());
+                    found += 1;
+                    if found >= 12 { break; }
+                }
+            }
         }
         "probe17" => {
             c17::probe_main(args[2].parse().unwrap(), args[3].parse().unwrap());
